@@ -317,6 +317,35 @@ func c10Scenario(sp *c10Spec, bound int, workers map[string]int, pols []int) *Sc
 
 var thoroughTier bool
 
+// c10MatrixScenario: an arbitrary combination of options; whatever it means, massive mode must produce the same lines
+// (as a multiset, roots may come in any order) and the same error verdict as simple mode with the same options.
+type c10MatrixExec struct {
+	*DrvRun
+	ref *DrvRun
+}
+
+func (e *c10MatrixExec) Outcome() string { return fmt.Sprintf("err=%v out=%s", e.Err != nil, short(e.Out)) }
+
+func (e *c10MatrixExec) Check(o *mc.Outcome) []Viol {
+	e.Finish()
+	if e.W != nil {
+		e.Out = e.W.buf.String()
+	}
+	if o.End() == "panic" {
+		return []Viol{{"C10|panic-in-massive|" + panicSig(o.Panic), fmt.Sprintf("driver %s\n%s", e.d, o.Panic)}}
+	}
+	if !e.Returned || e.ref == nil {
+		return nil
+	}
+	var vs []Viol
+	if (e.Err != nil) != (e.ref.Err != nil) {
+		vs = append(vs, Viol{"C10|error-mismatch|option-matrix|" + e.d.ExtraOpts, fmt.Sprintf("driver %s: massive err=%v, simple err=%v", e.d, e.Err, e.ref.Err)})
+	} else if e.Err == nil && sortedLinesOf(e.Out) != sortedLinesOf(e.ref.Out) {
+		vs = append(vs, Viol{"C10|output-differs|option-matrix|" + e.d.ExtraOpts, fmt.Sprintf("driver %s:\nmassive %q\nsimple  %q", e.d, e.Out, e.ref.Out)})
+	}
+	return vs
+}
+
 // c10RootScenario: the From-Root family with the massive option against the same call without it (one root).
 type c10RootExec struct {
 	*DrvRun
@@ -578,6 +607,36 @@ func init() {
 				b := NewDrv(op, "")
 				b.Root = bad
 				out = append(out, c10RootScenario("invalid-name/"+op, b, k1, pols))
+			}
+		}
+		// option matrix: every subset of {JSON, dry run, extensions, custom branches} in this order, plus a few more orders
+		{
+			names := []string{"json", "dry", "exts", "fmt"}
+			var combos []string
+			for bits := 0; bits < 16; bits++ {
+				var o []string
+				for i, n := range names {
+					if bits&(1<<i) != 0 {
+						o = append(o, n)
+					}
+				}
+				combos = append(combos, strings.Join(o, ","))
+			}
+			combos = append(combos, "fmt,exts,dry,json", "yaml,dry", "nil,fmt,nil", "yaml,json", "dry,noiter")
+			for _, cmb := range combos {
+				cmb := cmb
+				d := NewDrv("out-text", "- a\n  - b\n  - c\n    - d\n- e\n  - b\n")
+				d.ExtraOpts = cmb
+				var ref *DrvRun
+				out = append(out, &Scenario{Name: "c10/matrix/" + cmb, Prop: "C10", Workers: w2, Bound: 1, Policies: pols[:2],
+					Prepare: func() {
+						ref = nil
+						func() {
+							defer func() { recover() }()
+							ref = runSimple(*d)
+						}()
+					},
+					New: func() Exec { return &c10MatrixExec{DrvRun: d.New(), ref: ref} }})
 			}
 		}
 		// strict verify with an extra entry in one root
